@@ -320,6 +320,13 @@ func (vc *VC) selectInstr(x *ssa.Select, st *State) {
 			tv.Tup = append(tv.Tup, tvv)
 			ri++
 			vc.selectRecvHook(s.Chan, tvv, eq(idx, ar.ix(int64(i))), st, x.Pos())
+			// the chosen receive case has waited for its channel (waitedfor)
+			{
+				B := types.Typ[types.Bool]
+				vc.heapKeySort("#waited", B)
+				ch := vc.val(s.Chan).S
+				vc.heapWrite(st, "#waited", B, ch, ite(eq(idx, ar.ix(int64(i))), "true", vc.heapRead(st, "#waited", B, ch)))
+			}
 		} else {
 			vc.selectSendHook(s.Chan, s.Send, eq(idx, ar.ix(int64(i))), st, x.Pos())
 		}
